@@ -147,3 +147,80 @@ package vgirpc
 //@ func (*ShmSegment).canFitLocked
 //@   property C34
 //@   boundary
+
+// A segment's size and name are fixed when it is created or attached (checked package-wide).
+//@ immutable ShmSegment.size
+//@ immutable ShmSegment.name
+
+// ---- C35: pointers into the segment are safe; the bytes written are the bytes described ----
+//
+// ReadBatch: on every normal path the region handed to the IPC reader is exactly
+// s.data[offset : offset+length], with 0 <= length and offset+length <= s.size (no wrap of
+// offset+uint64(length) survives: a wrapped end is below offset and the slice expression
+// panics). It may panic (negative or overflowing pointer): its callers must contain that.
+//
+//@ func (*ShmSegment).ReadBatch
+//@   property C35
+//@   maypanic
+//@   boundary
+//@   requires s.size >= 0
+//@   at call schemaHasTopLevelDictionary assert [region] arr(region) == arr(s.data) && off(region) == off(s.data) + offset && len(region) == length && 0 <= length && offset + length <= s.size
+//@   at call readIPCStream#1 assert [fast] arg0 == region
+//@   at call append#2 assert [dict] arg1 == region
+//@   at call readIPCStream#2 assert [dictframe] len(arg0) == len(schemaOnly) + length
+
+// ResolveShmBatch: no panic escapes, whatever the pointer metadata says — every instruction
+// that can panic, and the call to ReadBatch, sits behind the recovering defer; a resolved batch
+// is released at the offset the pointer named; the rebuilt metadata carries no pointer key,
+// ends with the source key, and its keys and values pair up.
+//
+//@ func ResolveShmBatch
+//@   property C35
+//@   nopanic(index, slice, typeassert, divide, makeslice, call, recovered)
+//@   boundary
+//@   requires seg == nil || seg.size >= 0
+//@   loop 0 invariant len(keys) == len(vals) && 0 <= i && arr(keys) != arr(vals)
+//@   loop 0 invariant forall k int :: 0 <= k && k < len(keys) ==> keys[k] != MetaShmOffset && keys[k] != MetaShmLength
+//@   at call arrow.NewMetadata assert [nopointerkeys] len(arg0) == len(arg1) && len(arg0) >= 1 && arg0[len(arg0)-1] == MetaShmSource && arg1[len(arg1)-1] == seg.name &&
+//@       (forall k int :: 0 <= k && k < len(arg0) - 1 ==> arg0[k] != MetaShmOffset && arg0[k] != MetaShmLength)
+//@   at call (*ShmSegment).ReadBatch assert [parsed] isDigits(offStr) && arg1 == decval(offStr)
+
+// The slot writers: nothing is written outside the buffer, and the count is exact.
+//
+//@ func (*shmSliceWriter).Write
+//@   property C35
+//@   nopanic(index, slice)
+//@   requires 0 <= w.n && w.n <= len(w.buf)
+//@   ensures [local_count_ret2] result1 == nil && result0 == len(p) && w.n == old(w.n) + len(p)
+//@   ensures [inbuf] 0 <= w.n && w.n <= len(w.buf)
+//@   ensures [local_refuse_ret1] result0 == 0 && w.n == old(w.n) && old(w.n) + len(p) > len(w.buf)
+//@ func (*shmCountWriter).Write
+//@   property C35
+//@   ensures [count] result0 == len(p) && result1 == nil && (old(c.n) + len(p) <= 9223372036854775807 ==> c.n == old(c.n) + len(p))
+
+// allocateAndWriteSerialized: the bytes go to exactly the slot the allocator returned, and the
+// (offset, length) handed back names that slot: inside the data area, as long as the payload.
+//
+//@ func (*ShmSegment).allocateAndWriteSerialized
+//@   property C35
+//@   at call copy assert [slot] arr(arg0) == arr(s.data) && off(arg0) == off(s.data) + offset && len(arg0) == len(buf)
+//@   ensures [local_names_ret7] result2 && result1 == len(buf) && result0 >= 65536 && result0 + result1 <= s.size
+
+// AllocateAndWrite (fast path): the destination is exactly the slot the allocator returned,
+// `total` bytes long, and the (offset, length) handed back names that slot.
+//
+//@ func (*ShmSegment).AllocateAndWrite
+//@   property C35
+//@   at call copy#1 assert [slot] arr(arg0) == arr(s.data) && off(arg0) == off(s.data) + offset && len(arg0) == total
+//@   ensures [local_names_ret12] result2 && result1 == total && result0 >= 65536 && result0 + result1 <= s.size
+
+// cachedSchemaBytes: the per-segment cache of schema messages is keyed by the identity of the
+// very schema the message was rendered from (two schemas that merely look alike never share an
+// entry), and what is stored is the rendered stream without its 8-byte end marker.
+//
+//@ func (*ShmSegment).cachedSchemaBytes
+//@   property C35
+//@   at call (*sync.Map).Load assert [lookupkey] arg1 == iface(schema)
+//@   at call writeSchemaOnlyStream assert [rendered] arg0 == schema
+//@   at call (*sync.Map).LoadOrStore assert [storekey] arg1 == iface(schema) && arg2 == iface(msg)
+//@   at call (*sync.Map).LoadOrStore assert [stripped] arr(msg) == arr(full) && off(msg) == off(full) && len(msg) == len(full) - 8
